@@ -183,6 +183,10 @@ def cmd_check(prop, tier, seed, nproc=None):
                                    {'signature': sig,
                                     'shrink_executions': n_exec})
         ok, out = runner.verify_replay_fresh(prop, path)
+        if ok == 'same_class':
+            print(f'note: replay {path} reproduces the violation class in a '
+                  'fresh interpreter, with different detail (the code under '
+                  'test behaves nondeterministically)')
         if not ok:
             rep.harness_errors.append(
                 f'replay {path} did not reproduce in a fresh interpreter: '
@@ -218,6 +222,7 @@ def main():
     ap.add_argument('--replay')
     ap.add_argument('--no-verify', action='store_true')
     ap.add_argument('--fingerprints')
+    ap.add_argument('--launchplans')
     ap.add_argument('--nproc', type=int, default=None)
     ap.add_argument('--n', type=int, default=200)
     a = ap.parse_args()
@@ -230,6 +235,14 @@ def main():
     try:
         if a.fingerprints:
             return cmd_fingerprints(a.what, a.fingerprints)
+        if a.launchplans:
+            mod = load(a.what)
+            with open(a.launchplans) as f:
+                cfgs = json.load(f)
+            with runner.quiet():
+                out = mod.launch_plans_here(cfgs)
+            print('LAUNCHPLANS ' + json.dumps(out))
+            return 0
         if a.replay:
             return cmd_replay(a.what, a.replay)
         return cmd_check(a.what, a.tier, a.seed, a.nproc)
